@@ -5,6 +5,7 @@ from __future__ import annotations
 import contextlib
 import io
 import json
+import os
 import sys
 
 
@@ -23,6 +24,13 @@ def describe_folder(folder, outputs):
             res["outputs"][o] = probes.render(load_outputs(o, run_folder=folder))
         except Exception as e:  # noqa: BLE001
             res["outputs"][o] = f"EXC {type(e).__name__}: {str(e)[:200]}"
+    if len(outputs) >= 2:
+        # all names in ONE call; every array is kept until all have been loaded, then rendered
+        try:
+            several = load_outputs(*outputs, run_folder=folder)
+            res["outputs_together"] = {o: probes.render(x) for o, x in zip(outputs, several)}
+        except Exception as e:  # noqa: BLE001
+            res["outputs_together"] = f"EXC {type(e).__name__}: {str(e)[:200]}"
     try:
         ri = RunInfo.load(folder)
         res["run_info"] = {
@@ -54,10 +62,13 @@ def main():
     jobs = json.load(open(sys.argv[1]))
     out = {}
     with contextlib.redirect_stdout(io.StringIO()):
+        home = os.getcwd()
         for job in jobs:
+            os.chdir(job.get("cwd") or home)
             a = describe_folder(job["folder"], job["outputs"])
             b = describe_folder(job["folder"], job["outputs"])
             out[job["id"]] = {"first": a, "second_equal": a == b}
+    os.chdir(home)
     with open(sys.argv[2], "w") as f:
         json.dump(out, f)
 
